@@ -543,7 +543,7 @@ func (t *Table) Put(input *types.PutItemInput) (map[string]*types.Item, error) {
 		}, t.getItem(key))
 
 		if !matched {
-			return item, types.NewError("ConditionalCheckFailedException", ErrConditionalRequestFailed.Error(), nil)
+			return item, conditionalCheckError(input.ReturnValuesOnConditionCheckFailure, t.getItem(key))
 		}
 	}
 
@@ -686,7 +686,7 @@ func (t *Table) Delete(input *types.DeleteItemInput) (map[string]*types.Item, er
 		}, t.getItem(key))
 
 		if !matched {
-			return nil, types.NewError("ConditionalCheckFailedException", ErrConditionalRequestFailed.Error(), nil)
+			return nil, conditionalCheckError(input.ReturnValuesOnConditionCheckFailure, t.getItem(key))
 		}
 	}
 
@@ -765,6 +765,20 @@ func (t *Table) IndexesDescription() ([]types.GlobalSecondaryIndexDescription, [
 	}
 
 	return gsi, lsi
+}
+
+// conditionalCheckError builds the error of a refused conditional write,
+// it carries the stored item when the request asks for it
+func conditionalCheckError(returnValues *string, item map[string]*types.Item) error {
+	checkErr := &types.ConditionalCheckFailedException{
+		MessageText: ErrConditionalRequestFailed.Error(),
+	}
+
+	if types.StringValue(returnValues) == "ALL_OLD" {
+		checkErr.Item = copyItem(item)
+	}
+
+	return checkErr
 }
 
 func handleConditionalCheckError(input *types.UpdateItemInput, checkErr *types.ConditionalCheckFailedException, item map[string]*types.Item) {
